@@ -5,7 +5,7 @@
    with) to a call-by-name binding, and every Evaluated cell holds a value that unfolds to what
    its original closure evaluates to in the call-by-name semantics. *)
 From Coq Require Import List String ZArith Bool Lia Arith.
-From NV Require Import Lazy.Syntax Lazy.Spec Lazy.SpecFacts Lazy.RelFacts Lazy.Need.
+From NV Require Import Lazy.Syntax Lazy.Spec Lazy.SpecFacts Lazy.RelFacts Lazy.FieldPath Lazy.Need.
 Import ListNotations.
 Open Scope string_scope.
 Open Scope list_scope.
@@ -843,6 +843,54 @@ Proof.
                 (UE_nil _) (hext_refl _)) as [Hx1 [m1 Ev]].
     rewrite force_clos in Ev. exists m1. unfold run. now rewrite Ev.
   - injection Hr as <- <-. congruence.
+Qed.
+
+(* ------------------------------------------------------------------ field extraction on the machine *)
+
+Lemma extractN_loc_refines : forall n path h l b r h',
+  extractN_loc fl Good n h l path = (r, h') -> r <> OutOfFuel -> r <> Err InfiniteRec ->
+  Inv h -> U h l b -> hext (init_heap fl) h ->
+  dres_ok h h' (fun m => extract_b fl m b path) r.
+Proof.
+  intros n path. induction path as [|f p IH]; intros h l b r h' He Ho Hi Hinv Hu Hfl;
+    cbn [extractN_loc] in He.
+  - cbn [extract_b]. eapply (elem_ref n (exportN_refines n)); eauto.
+  - unfold enter in He.
+    destruct (enter_with Good (evalN fl Good n) h l) as [[nv|e|] h1] eqn:E1.
+    + destruct (enter_ref n (evalN_refines n) _ _ _ _ _ E1 ltac:(discriminate) ltac:(discriminate) Hinv Hu Hfl)
+        as [Hx1 [Hinv1 [m1 [v [F1 V1]]]]].
+      destruct V1 as [z|s|b0|x b0 nrho rho Hab Hr|ls bs Hl|fs bs Hl];
+        try (injection He as <- <-; split; [assumption|]; exists m1; cbn [extract_b]; rewrite F1; reflexivity).
+      pose proof (VU_rec_lookup h1 fs bs f Hl) as Hlk.
+      destruct (lookup f fs) as [l'|] eqn:L.
+      * destruct Hlk as [b' [Lb Ub]].
+        destruct (IH _ _ _ _ _ He Ho Hi Hinv1 Ub (hext_trans _ _ _ Hfl Hx1)) as [Hx2 R2].
+        split; [eapply hext_trans; eauto|]. destruct r as [d|e|]; [| |contradiction].
+        -- destruct R2 as [Hinv2 [m2 X]]. split; [assumption|]. exists (Nat.max m1 m2). cbn [extract_b].
+           rewrite (force_mono fl m1 (Nat.max m1 m2) b _ F1) by (try discriminate; lia). rewrite Lb.
+           apply (extract_b_mono fl p m2 (Nat.max m1 m2) b' _ X); [discriminate|lia].
+        -- destruct R2 as [m2 X]. exists (Nat.max m1 m2). cbn [extract_b].
+           rewrite (force_mono fl m1 (Nat.max m1 m2) b _ F1) by (try discriminate; lia). rewrite Lb.
+           apply (extract_b_mono fl p m2 (Nat.max m1 m2) b' _ X); [discriminate|lia].
+      * injection He as <- <-. split; [assumption|]. exists m1. cbn [extract_b]. rewrite F1. now rewrite Hlk.
+    + injection He as <- <-.
+      destruct (enter_ref n (evalN_refines n) _ _ _ _ _ E1 ltac:(discriminate) (err_ne_cast _ _ _ _ Hi) Hinv Hu Hfl)
+        as [Hx1 [m1 F1]].
+      split; [assumption|]. exists m1. cbn [extract_b]. now rewrite F1.
+    + injection He as <- <-. congruence.
+Qed.
+
+Theorem need_extract_refines_name : forall n t path r h,
+  acyclic t = true ->
+  extractN fl Good n t path = (r, h) -> r <> OutOfFuel -> r <> Err InfiniteRec ->
+  exists m, extract fl m [] t path = r.
+Proof.
+  intros n t path r h Hac He Ho Hi. unfold extractN, alloc in He.
+  destruct (alloc_ref (init_heap fl) t [] [] Inv_init Hac (UE_nil _)) as [Hx [Hinv Hu]].
+  destruct (extractN_loc_refines _ _ _ _ _ _ _ He Ho Hi Hinv Hu Hx) as [_ R].
+  unfold extract. destruct r as [d|e|]; [| |contradiction].
+  - destruct R as [_ [m X]]. eauto.
+  - destruct R as [m X]. eauto.
 Qed.
 
 End Ref.
